@@ -95,6 +95,11 @@ def scenario(V, P, cfg):
                 Wd = np.asarray(seed)
             elif kind == "preimage_T":
                 seed, Wd = _preimage_seed(V, setup, s.state)
+            elif kind == "dense" and cfg.get("real_seed"):
+                # a real-typed seed (1.0, np.ones(n)) on an output whose value is complex
+                shp = np.shape(dense_entries(s.state))
+                seed = V.reals("wr%d" % j, shp) if shp else V.real("wr%d" % j)
+                Wd = np.asarray(seed)
             else:
                 seed, Wd = adj.make_seed(V, j, s.state, kind, setup)
             W.append(np.array(Wd, dtype=object if V.symbolic else None, copy=True))   # snapshot before the call
@@ -137,7 +142,7 @@ def run_item(cfg, tier):
     if cfg.get("logical_dtype"):
         from symx.array import enable_logical_dtype
         enable_logical_dtype(True)      # forked worker: NumPy's real/complex casting rules for in-place operations
-    return symbolic_run(scenario, cfg, tier, max_paths=cfg.get("max_paths", 60))
+    return symbolic_run(scenario, cfg, tier, max_paths=cfg.get("max_paths", 60), twin_exceptions=True)
 
 
 # ------------------------------------------------------------------------------------------------
@@ -179,6 +184,10 @@ def replay(cfg, label, env, case):
                     Wd = np.asarray(seed)
                 elif kind == "preimage_T":
                     seed, Wd = _preimage_seed(V, setup, sg.state)
+                elif kind == "dense" and cfg.get("real_seed"):
+                    shp = np.shape(dense_entries(sg.state))
+                    seed = V.reals("wr%d" % j, shp) if shp else V.real("wr%d" % j)
+                    Wd = np.asarray(seed)
                 else:
                     seed, Wd = adj.make_seed(V, j, sg.state, kind, setup)
                 sg.sensitivity = seed
